@@ -73,6 +73,13 @@ def fit_record(Xi, Yi, a, k, space, solver, route, y1d=False, Xn=None, pre=None,
                         "score": int(round(float(m_.score(X, Yarg if route != "pre" else Yarg)) * S)) if route != "pre" else 0,
                         "Xn": [], "Tn": [], "Ypn": [], "YpTn": [], "Yn": [], "Xrn": [], "scoren": 0, "lamfull": [], "cmpY": True,
                         "comp": [], "That": [], "pcaV": [], "lrW": []})
+            # the documented third argument of score: latent coordinates supplied by the caller (here: the last component
+            # switched off); the losses are then those of exactly these coordinates
+            rec.update({"XrS": [], "YpS": [], "scoreS": 0})
+            if route != "pre" and k >= 2:
+                Ts = T.copy(); Ts[:, -1] = 0.0
+                rec.update({"XrS": fq(m_.inverse_transform(Ts)), "YpS": fq(np.reshape(m_.predict(T=Ts), (len(X), -1))),
+                            "scoreS": int(round(float(m_.score(X, Yarg, T=Ts)) * S))})
             if Xn is not None:
                 Xnf = Xn / 4.0
                 Tn = m_.transform(Xnf)
